@@ -34,9 +34,9 @@ ASSUMPTIONS = [
 DESIGN_REF = "DESIGN.md §5 C07"
 
 USET = (["evsig_cb.%d:66" % i for i in range(7)] + ["evsig_dealloc_.%d:66" % i for i in range(3)] +
-        ["evmap_io_active_.0:3", "evmap_signal_active_.0:4", "event_base_loop.16:4", "event_signal_closure.6:4", "noted.0:5", "read.0:5",
+        ["evmap_io_active_.0:3", "evmap_signal_active_.0:4", "event_base_loop.16:4", "event_signal_closure.6:6", "event_process_active_single_queue.21:8", "noted.0:5", "read.0:5",
          "vp_sigfd_of.0:5", "vp_sigfd_for_sig.0:5", "kernel_reports.0:5", "evmap_signal_foreach_signal.0:34", "evmap_io_foreach_fd.0:66",
-         "evmap_signal_clear_.0:66"])
+         "evmap_signal_clear_.0:66", "vp_realloc_signal.0:66"])
 
 SHAPES = [
     ("basic", "ADD(0) DELIVER(A) LOOP DEL(0) FREE", []),
@@ -67,7 +67,7 @@ def obligations(tier):
     for n, s, e in SHAPES + PIPE_ONLY:
         obs.append(ob("pipe_" + n, s, e))
     for n, s, e in SHAPES:
-        obs.append(ob("sigfd_" + n, s, e + ["VP_SIGFD"]))
+        obs.append(ob("sigfd_" + n, s, [x for x in e if x != "VP_WIT_TWICE"] + ["VP_SIGFD"]))
     if tier == "thorough":
         for n, s, e in SHAPES[:4]:
             obs.append(ob("pipe_" + n + "_ndebug", s, e, ndebug=True))
